@@ -6,7 +6,7 @@ From Verif Require Import lib.Wire c03.Int64 c03.Model c03.Spec c03.Proofs_Int64
      c03.Proofs_Frames3 c03.Proofs_Kill c03.Proofs_OpsMem c03.Proofs_Done c03.Proofs_OpsDone c03.Proofs_OpsNew
      c03.Proofs_OpsOpen c03.Proofs_Hist c03.Proofs_Repar c03.Proofs_Repar2 c03.Proofs_Move c03.Proofs_Attach
      c03.Proofs_Attach1 c03.Proofs_Link2 c03.Proofs_Transfer c03.Proofs_OpsRepar c03.Proofs_SetPeer c03.Proofs_Hist2
-     c03.Proofs_Prio c03.Proofs_Just c03.Proofs_Just2 c03.Proofs_Ans.
+     c03.Proofs_Prio c03.Proofs_Cap c03.Proofs_CapInv c03.Proofs_Cap2 c03.Proofs_Just c03.Proofs_Just2 c03.Proofs_Ans.
 Import ListNotations.
 Local Open Scope Z_scope.
 
@@ -82,7 +82,7 @@ Qed.
 Theorem set_proto_code : forall c st a j p s,
   cfg_ok c -> Inv c (scopes st) a -> Link st a -> nget (astreams a) j = Some s ->
   novf (scopes st) (mem (use_of (scopes st) (Stream j))) ->
-  answer_ok a (OSetProto j p) (snd (set_proto c st j p)) = true.
+  answer_ok c a (OSetProto j p) (snd (set_proto c st j p)) = true.
 Proof.
   intros c st a j p s LO I L Gs Ov. unfold answer_ok. cbn [other_refusal_ok]. rewrite Gs.
   destruct (proj2 L j s Gs) as (si & h & Gsi & Gh & Ep & Epr & Esv & Epar & Hsv).
@@ -98,7 +98,7 @@ Qed.
 Theorem set_svc_code : forall c st a j sv s,
   cfg_ok c -> Inv c (scopes st) a -> Link st a -> nget (astreams a) j = Some s ->
   novf (scopes st) (mem (use_of (scopes st) (Stream j))) ->
-  answer_ok a (OSetSvc j sv) (snd (set_svc c st j sv)) = true.
+  answer_ok c a (OSetSvc j sv) (snd (set_svc c st j sv)) = true.
 Proof.
   intros c st a j sv s LO I L Gs Ov. unfold answer_ok. cbn [other_refusal_ok]. rewrite Gs.
   destruct (proj2 L j s Gs) as (si & h & Gsi & Gh & Ep & Epr & Esv & Epar & Hsv).
@@ -116,7 +116,7 @@ Qed.
 Theorem set_peer_code : forall c st a i q ac,
   cfg_ok c -> Inv c (scopes st) a -> Link st a -> nget (aconns a) i = Some ac ->
   novf (scopes st) (mem (use_of (scopes st) (Conn i))) ->
-  answer_ok a (OSetPeer i q) (snd (set_peer c st i q)) = true.
+  answer_ok c a (OSetPeer i q) (snd (set_peer c st i q)) = true.
 Proof.
   intros c st a i q ac LO I L Ga Ov. unfold answer_ok. cbn [other_refusal_ok]. rewrite Ga.
   destruct (proj1 L i ac Ga) as (ci & h & Gci & Gh & Epe & Eal & Eep & Hpar).
@@ -177,7 +177,7 @@ Theorem reserve_code : forall c st a t sz prio,
   cfg_ok c -> Inv c (scopes st) a ->
   0 <= prio <= 255 -> sz <= max_int64 -> view_target t = true -> has_holder a t = true ->
   novf (scopes st) (Z.max sz 0) ->
-  answer_ok a (OReserve t sz prio) (snd (reserve_mem c st t sz prio)) = true.
+  answer_ok c a (OReserve t sz prio) (snd (reserve_mem c st t sz prio)) = true.
 Proof.
   intros c st a t sz prio LO I Hp Hsz V Hh Ov. unfold reserve_mem, answer_ok. cbn [other_refusal_ok].
   pose proof (has_holder_if a t Hh) as K.
@@ -205,7 +205,7 @@ Qed.
 
 Theorem begin_span_code : forall c st a t k,
   cfg_ok c -> Inv c (scopes st) a -> view_target t = true -> has_holder a t = true ->
-  answer_ok a (OBeginSpan t k) (snd (begin_span c st t k)) = true.
+  answer_ok c a (OBeginSpan t k) (snd (begin_span c st t k)) = true.
 Proof.
   intros c st a t k LO I V Hh. unfold begin_span, answer_ok. cbn [other_refusal_ok].
   pose proof (has_holder_if a t Hh) as K.
@@ -220,14 +220,15 @@ Proof.
 Qed.
 
 (* every answer of the model is a legal answer *)
-Theorem ans_step : forall c st a o, cfg_ok c -> InvL c st a ->
+Theorem ans_step : forall c st a o, cfg_ok c -> InvL c st a -> CapInv c st a ->
   match o with OGC => True | _ => wf_op2 c st a o end ->
-  answer_ok a o (snd (step c st o)) = true.
+  answer_ok c a o (snd (step c st o)) = true.
 Proof.
-  intros c st a o LO [I L] Wf. destruct o; cbn [wf_op2 wf_op step] in *; try reflexivity.
+  intros c st a o LO [I L] Ci Wf. destruct o; cbn [wf_op2 wf_op step] in *; try reflexivity.
   - pose proof (open_conn_code c st a i inb usefd ep LO I Wf) as H.
     destruct (open_conn c st i inb usefd ep) as [st' cls]. cbn [snd]. unfold answer_ok. cbn [other_refusal_ok].
-    destruct H as [->|[->|[-> Hn]]]; try reflexivity. destruct ep; [reflexivity | contradiction].
+    destruct H as [->|[->|[-> (ip & -> & LA)]]]; try reflexivity.
+    rewrite (limiter_add_refused c (lims st) ip (open_ips a false) (proj1 Ci) LA). reflexivity.
   - destruct Wf as ((ac & Ga) & Ov). apply (set_peer_code c st a i q ac LO I L Ga Ov).
   - unfold answer_ok. destruct (open_stream_code c st a j q inb LO I Wf) as [->| ->]; reflexivity.
   - destruct Wf as ((s & Gs) & Ov). apply (set_proto_code c st a j p s LO I L Gs Ov).
